@@ -27,6 +27,11 @@ pub fn modify_contract(
         return Err(ContractError::Unauthorized);
     }
 
+    // return error if funds sent
+    if !info.funds.is_empty() {
+        return Err(ContractError::ExecuteWithFunds);
+    }
+
     let contains_ask = !ASKS_V1.is_empty(deps.storage);
     check_required_attributes(
         contains_ask.to_owned(),
